@@ -265,5 +265,30 @@ func runOSCacheLayer(c *Ctx) {
 		}
 		os.RemoveAll(dir)
 	}
+	// base AND layer on the OS (both honour O_TRUNC and friends on a read-only open, which MemMapFs
+	// ignores): after any open through the cache, what the layer holds still equals the base
+	for _, dur := range []time.Duration{0, time.Hour} {
+		dirB, _ := os.MkdirTemp("", "afosbase2-")
+		dirL, _ := os.MkdirTemp("", "afoslayer2-")
+		base := afero.NewBasePathFs(afero.NewOsFs(), dirB)
+		u := afero.NewCacheOnReadFs(base, afero.NewBasePathFs(afero.NewOsFs(), dirL), dur)
+		for fi, fl := range []int{os.O_RDONLY | os.O_TRUNC, os.O_RDONLY | os.O_APPEND, os.O_RDONLY | os.O_EXCL, os.O_RDONLY | os.O_SYNC, os.O_RDONLY | os.O_TRUNC | os.O_APPEND} {
+			p := fmt.Sprintf("/f%d", fi)
+			afero.WriteFile(base, p, []byte("0123456789"), 0o644)
+			afero.ReadFile(u, p) // cached now
+			if h, err := u.OpenFile(p, fl, 0o644); err == nil && h != nil {
+				h.Close()
+			}
+			inLayer, errL := os.ReadFile(filepath.Join(dirL, p))
+			inBase, _ := os.ReadFile(filepath.Join(dirB, p))
+			n++
+			c.Count("oslayer.flagopen")
+			if errL == nil && string(inLayer) != string(inBase) {
+				c.Oracle("FAIL oslayer%d layers-diverge:os-layers after OpenFile(%q, %#x) through the cache (base and layer on the OS, duration %v) the layer holds %q, the base %q", n, p, fl, dur, inLayer, inBase)
+			}
+		}
+		os.RemoveAll(dirB)
+		os.RemoveAll(dirL)
+	}
 	c.Extra["os_layer"] = fmt.Sprintf("%d first reads through CacheOnReadFs(MemMapFs, BasePathFs(OsFs, temp dir)) incl. nested files (oracle only)", n)
 }
